@@ -63,6 +63,16 @@ func valueOf(v string, f uint64, rem uint64) uint64 {
 		return 1 << 63
 	case "2^64-1":
 		return ^uint64(0)
+	case "2^64-2":
+		return ^uint64(0) - 1
+	case "2^63+f":
+		return f | 1<<63 // the genuine value with the top bit set
+	case "2^28":
+		return 1 << 28
+	case "2^28+1":
+		return 1<<28 + 1
+	case "2^32-1":
+		return 1<<32 - 1
 	case "rem-1":
 		return rem - 1
 	case "rem+1":
